@@ -1200,7 +1200,6 @@ class DtsAccessor:
         )
         deriv_ds2 = xr.Dataset(deriv_dict2)
 
-        # TODO: sigma2_tafw_tabw
         var_w_dict = dict(
             dT_dst=deriv_ds2.T_st_w**2 * parse_st_var(self.st, st_var),
             dT_dast=deriv_ds2.T_ast_w**2 * parse_st_var(self.ast, ast_var),
@@ -1245,7 +1244,15 @@ class DtsAccessor:
             * param_covs["alpha_db"],
             ddb_dtaf=2 * deriv_ds2.T_db_w * deriv_ds2.T_taf_w * param_covs["tafw_db"],
             ddb_dtab=2 * deriv_ds2.T_db_w * deriv_ds2.T_tab_w * param_covs["tabw_db"],
-            # dtaf_dtab=2 * deriv_ds2.T_tab_w * deriv_ds2.T_tab_w * param_covs["tafw_tabw"],
+            dalpha_dtaf=2
+            * deriv_ds2.T_alpha_w
+            * deriv_ds2.T_taf_w
+            * param_covs["tafw_alpha"],
+            dalpha_dtab=2
+            * deriv_ds2.T_alpha_w
+            * deriv_ds2.T_tab_w
+            * param_covs["tabw_alpha"],
+            dtaf_dtab=2 * deriv_ds2.T_taf_w * deriv_ds2.T_tab_w * param_covs["tafw_tabw"],
         )
         out["var_w_da"] = xr.Dataset(var_w_dict).to_array(dim="comp_w")
         out["tmpw_var"] = out["var_w_da"].sum(dim="comp_w")
